@@ -1,4 +1,5 @@
-(* conversions between OCaml ints / hex strings and the extracted N, positive, lists *)
+(* NOTE: Coq's `string` may be extracted as Model.string, so OCaml strings are written Stdlib.String.t here.
+   conversions between OCaml ints / hex strings and the extracted N, positive, lists *)
 open Model
 
 let rec pos_of_int (i : int) : positive =
@@ -12,11 +13,13 @@ let rec int_of_nat (x : nat) : int = match x with O -> 0 | S y -> 1 + int_of_nat
 
 let hexv c = match c with
   | '0'..'9' -> Char.code c - 48 | 'a'..'f' -> Char.code c - 87 | 'A'..'F' -> Char.code c - 55 | _ -> 0
-let bytes_of_hex (s : string) : n list =
+let bytes_of_hex (s : Stdlib.String.t) : n list =
   if s = "-" then [] else
   let n = String.length s / 2 in
   List.init n (fun i -> n_of_int (hexv s.[2*i] * 16 + hexv s.[2*i+1]))
-let hex_of_bytes (l : n list) : string =
+let hex_of_bytes (l : n list) : Stdlib.String.t =
   if l = [] then "-" else String.concat "" (List.map (fun b -> Printf.sprintf "%02x" (int_of_n b)) l)
-let ints_of_hex (s : string) : int list = List.map int_of_n (bytes_of_hex s)
-let split_line (l : string) : string list = String.split_on_char ' ' l
+let ints_of_hex (s : Stdlib.String.t) : int list = List.map int_of_n (bytes_of_hex s)
+let split_line (l : Stdlib.String.t) : Stdlib.String.t list = String.split_on_char ' ' l
+
+(* Coq string (extracted inductive) <-> OCaml string, when the model uses Coq.Strings.String *)
